@@ -7,7 +7,7 @@
    Model file: definitions only. *)
 From Coq Require Import NArith List Bool.
 Import ListNotations.
-Require Import OPC.gen.GenTables OPC.Uni OPC.Names.
+Require Import OPC.gen.GenTables OPC.Uni OPC.Names OPC.Values.
 Open Scope N_scope.
 
 Inductive res (A : Type) : Type := Ok (a : A) | Err.
@@ -242,3 +242,70 @@ Fixpoint add_classes (prefix : str) (cs errs names : list str) : list str * list
   end.
 
 Definition model_classes (prefix : str) (names : list str) : list str * list str := add_classes prefix [] [] names.
+
+(* ------------------------------------------------------------------ (d') the class-name scope with enums
+   EnumProperty.build (parser/properties/enum_property.py:121-154): the member table {member name: value} is computed first
+   (values_from_list, Values.v: raises ValueError on a duplicate member name), then
+     if class_info.name in schemas.classes_by_name:
+         existing = ...; if not isinstance(existing, EnumProperty) or values != existing.values: return PropertyError
+   otherwise classes_by_name = {**classes_by_name, class_info.name: prop}  (an equal twin REPLACES the entry, position kept).
+   `values != existing.values` is Python dict inequality: same key set and equal value under every key, order irrelevant. *)
+Inductive centry := CModel | CEnum (t : list (str * evalue)).
+(* a declaration that mints a class name: an object schema, or an enum (parent = class name of the enclosing model, empty for a component) *)
+Inductive cdecl := DModel (n : str) | DEnum (parent n : str) (vs : list evalue).
+
+Definition decl_class (prefix : str) (d : cdecl) : str :=
+  match d with
+  | DModel n => class_of prefix n
+  | DEnum [] n _ => class_of prefix n
+  | DEnum p n _ => class_of prefix (pascal_case p ++ pascal_case n)
+  end.
+
+Fixpoint elookup (k : str) (m : list (str * evalue)) : option evalue :=
+  match m with [] => None | (k', v) :: m' => if str_eqb k' k then Some v else elookup k m' end.
+
+Definition table_eqb (a b : list (str * evalue)) : bool :=
+  Nat.eqb (length a) (length b) &&
+  forallb (fun kv => match elookup (fst kv) b with Some v => evalue_eqb (snd kv) v | None => false end) a.
+
+Fixpoint clookup (c : str) (tab : list (str * centry)) : option centry :=
+  match tab with [] => None | (c', e) :: tab' => if str_eqb c' c then Some e else clookup c tab' end.
+Fixpoint creplace (c : str) (e : centry) (tab : list (str * centry)) : list (str * centry) :=
+  match tab with
+  | [] => []
+  | (c', e') :: tab' => if str_eqb c' c then (c', e) :: tab' else (c', e') :: creplace c e tab'
+  end.
+
+(* None = the generator crashes (ValueError of values_from_list, finding enum_dup_crash); Some Err = a PropertyError is reported *)
+Definition add_decl (prefix : str) (tab : list (str * centry)) (d : cdecl) : option (res (list (str * centry))) :=
+  let c := decl_class prefix d in
+  match d with
+  | DModel _ => Some (match clookup c tab with Some _ => Err | None => Ok (tab ++ [(c, CModel)]) end)
+  | DEnum _ _ vs =>
+    match values_from_list vs with
+    | None => None
+    | Some t => Some (match clookup c tab with
+                      | None => Ok (tab ++ [(c, CEnum t)])
+                      | Some (CEnum t') => if table_eqb t t' then Ok (creplace c (CEnum t) tab) else Err
+                      | Some CModel => Err
+                      end)
+    end
+  end.
+
+Fixpoint add_decls (prefix : str) (tab : list (str * centry)) (errs : list cdecl) (ds : list cdecl)
+  : option (list (str * centry) * list cdecl) :=
+  match ds with
+  | [] => Some (tab, errs)
+  | d :: ds' => match add_decl prefix tab d with
+                | None => None
+                | Some (Ok tab') => add_decls prefix tab' errs ds'
+                | Some Err => add_decls prefix tab (errs ++ [d]) ds'
+                end
+  end.
+
+Definition model_decls (prefix : str) (ds : list cdecl) := add_decls prefix [] [] ds.
+
+(* same member names and the same value under every member name *)
+Definition tbl_equiv (a b : list (str * evalue)) : Prop := forall k, elookup k a = elookup k b.
+Definition decl_table (d : cdecl) : option (list (str * evalue)) :=
+  match d with DModel _ => None | DEnum _ _ vs => values_from_list vs end.
